@@ -34,7 +34,9 @@
 (*                                                                         *)
 (* Values are tagged records [t, v]:  "i" int, "f" float with an integral  *)
 (* value, "s" str, "n" None, "c" Categorical <<value, levels>>, "t" tuple  *)
-(* of ints (a one-hot tuple), "err" = the access must raise a LookupError  *)
+(* of ints (a one-hot tuple), "u" an undefined ARFF cell spelled as an     *)
+(* empty field or a quoted '?' (see U below), "err" = the access must     *)
+(* raise a LookupError                                                     *)
 (* (position = length, a name / key the eager table does not have).        *)
 (* Positions are 0-based in everything that is printed (Python terms) and  *)
 (* 1-based inside the operators.                                           *)
@@ -63,7 +65,7 @@
 (***************************************************************************)
 EXTENDS Integers, Sequences, FiniteSets, TLC, Json, SequencesExt
 
-CONSTANTS BaseNames,   \* subset of {"dense","sparse","arffd","arffs","catd","cats","cats3"}
+CONSTANTS BaseNames,   \* subset of {"dense","sparse","arffd","arffs","arffu","catd","cats","cats3"}
           MaxStages,   \* at most this many filters are stacked
           MaxAcc,      \* exactly this many accesses form a history
           Lite         \* TRUE: fewer stage variants / a shorter access alphabet (deeper bounds stay enumerable)
@@ -75,6 +77,13 @@ NoneV   == [t |-> "n", v |-> 0]
 C(s, L) == [t |-> "c", v |-> <<s, L>>]
 T(xs)   == [t |-> "t", v |-> xs]
 Err     == [t |-> "err", v |-> 0]
+(* an UNDEFINED cell of a numeric / nominal ARFF column that is not spelled with the bare missing marker: an empty field
+   (`3,,y`) or a quoted question mark (`5,'?',x`).  The row-level scanner does not flag such a row (missing = FALSE), the
+   cell itself cannot be decoded.  Its eager value is ONE of None / the text - the reading of quoted '?' is C12's known
+   finding, so either is accepted - but it is one value: the same for every access path (position, name, iteration,
+   equality, feats / label, under every filter).  The driver asks the reader once, by position on a fresh row, which
+   reading it has and demands that reading everywhere. *)
+U(text, ty) == [t |-> "u", v |-> <<text, ty>>]
 
 Digits == {"0","1","2","3","4","5","6","7","8","9"}
 StrInt == [s \in Digits |-> CHOOSE n \in 0..9 : ToString(n) = s]
@@ -121,6 +130,10 @@ CatS3Rows  == << ("0" :> I(1)) @@ ("1" :> C("y",L3)) @@ ("3" :> C("q",L2)),
 Attrs == << [name |-> "c", type |-> "num", levels |-> <<>>], [name |-> "a", type |-> "nom", levels |-> L3],
             [name |-> "d", type |-> "str", levels |-> <<>>], [name |-> "b", type |-> "num", levels |-> <<>>] >>
 ArffDRaw == << <<"1","y","s","4">>, <<"?","x","t","5">>, <<"3","?","?","6">>, <<"7","z","u","?">> >>
+(* the other spellings of an undefined cell: empty field, quoted question mark - numeric and nominal, first / middle / last
+   column; first and last row plain (row predicates take their comparison values from them) *)
+ArffURaw == << <<"1","y","s","4">>, <<"","x","t","5">>, <<"2","","u","6">>, <<"3","z","s","">>,
+               <<"'?'","y","t","7">>, <<"5","'?'","u","8">>, <<"6","x","s","'?'">>, <<"?","z","t","9">>, <<"7","x","u","0">> >>
 ArffSRaw == << ("0" :> "1") @@ ("1" :> "y") @@ ("3" :> "4"),
                ("1" :> "?") @@ ("2" :> "t"),
                ("0" :> "?") @@ ("3" :> "6"),
@@ -148,6 +161,7 @@ Base(b) == CASE b = "dense"  -> [kind |-> "dense",  src |-> "rows", rows |-> Den
              [] b = "cats3"  -> [kind |-> "sparse", src |-> "rows", rows |-> CatS3Rows,  attrs |-> <<>>]
              [] b = "arffd"  -> [kind |-> "dense",  src |-> "arff", rows |-> ArffDRaw,   attrs |-> Attrs]
              [] b = "arffs"  -> [kind |-> "sparse", src |-> "arff", rows |-> ArffSRaw,   attrs |-> Attrs]
+             [] b = "arffu"  -> [kind |-> "dense",  src |-> "arff", rows |-> ArffURaw,   attrs |-> Attrs]
              [] b = "dense2" -> [kind |-> "dense",  src |-> "rows", rows |-> Dense2Rows, attrs |-> <<>>]
              [] b = "dense3" -> [kind |-> "dense",  src |-> "rows", rows |-> Dense3Rows, attrs |-> <<>>]
              [] b = "sparse2"-> [kind |-> "sparse", src |-> "rows", rows |-> Sparse2Rows,attrs |-> <<>>]
@@ -159,7 +173,7 @@ Base(b) == CASE b = "dense"  -> [kind |-> "dense",  src |-> "rows", rows |-> Den
              [] b = "arffs3" -> [kind |-> "sparse", src |-> "arff", rows |-> ArffS3Raw,  attrs |-> Attrs]
 (* the second tables tried for a first table: same container kind (first that the stack is meaningful on), other kind *)
 TwinsSame(b)  == CASE b = "dense" -> <<"dense2","dense3">> [] b = "sparse" -> <<"sparse2">>
-                   [] b = "arffd" -> <<"arffd2","arffd3">> [] b = "arffs" -> <<"arffs2","arffs3">>
+                   [] b = "arffd" -> <<"arffd2","arffd3">> [] b = "arffs" -> <<"arffs2","arffs3">> [] b = "arffu" -> <<"arffd2","arffd3">>
                    [] b = "catd"  -> <<"catd2">> [] b = "cats" -> <<"cats2">> [] b = "cats3" -> <<"cats">> [] OTHER -> <<>>
 TwinsOther(b) == CASE b = "dense" -> <<"sparse">> [] b = "sparse" -> <<"dense">>
                    [] b = "arffd" -> <<"arffs2","arffs">> [] b = "arffs" -> <<"arffd2","arffd">>
@@ -168,6 +182,7 @@ TwinsOther(b) == CASE b = "dense" -> <<"sparse">> [] b = "sparse" -> <<"dense">>
 (* what ArffReader makes of one cell (readers.py 96-121; '?' -> None: rows.py 34-40, 55-61, 93-99) *)
 ArffEnc(a, raw, sparse) ==
   IF raw = "?" THEN NoneV ELSE
+  IF raw \in {"", "'?'"} THEN U(IF raw = "" THEN "" ELSE "?", a.type) ELSE      \* only in numeric / nominal columns of dense ARFF
   CASE a.type = "num" -> F(StrInt[raw])
     [] a.type = "nom" -> C(raw, IF sparse THEN <<"0">> \o a.levels ELSE a.levels)     \* readers.py 111-115: "0" is prepended
     [] a.type = "str" -> S(raw)
@@ -325,9 +340,12 @@ DenseDropCols(t) ==
       mixed(D)  == LET s == SetToSeq(D) IN [i \in DOMAIN s |-> IF i = 1 THEN Idx(s[i]) ELSE Nm(t, s[i])]
   IN {asIdx(D) : D \in sets}
      \cup (IF t.hdr = <<>> THEN {} ELSE {asName(D) : D \in sets} \cup {mixed(D) : D \in {E \in sets : Cardinality(E) = 2}})
+(* a comparison value must tell the rows apart the same way under both readings of an undefined cell *)
+CmpOK(t, p, v) == v.t # "u" /\ (v.t = "n" => \A r \in DOMAIN t.rows : t.rows[r][p].t # "u")
 DensePreds(t) ==
-  {NoPred} \cup {[a |-> "poseq", c |-> 0, v |-> t.rows[1][1]]}
-           \cup (IF t.hdr = <<>> THEN {} ELSE {[a |-> "nameeq", c |-> t.hdr[NCols(t)], v |-> t.rows[Len(t.rows)][NCols(t)]]})
+  {NoPred} \cup (IF CmpOK(t, 1, t.rows[1][1]) THEN {[a |-> "poseq", c |-> 0, v |-> t.rows[1][1]]} ELSE {})
+           \cup (IF t.hdr = <<>> \/ ~CmpOK(t, NCols(t), t.rows[Len(t.rows)][NCols(t)]) THEN {}
+                 ELSE {[a |-> "nameeq", c |-> t.hdr[NCols(t)], v |-> t.rows[Len(t.rows)][NCols(t)]]})
            \cup (IF \E r \in DOMAIN t.miss : t.miss[r] THEN {[a |-> "missing", c |-> 0, v |-> NoneV]} ELSE {})
 SparsePreds(t) ==
   {NoPred} \cup {[a |-> "haskey", c |-> kk, v |-> NoneV] : kk \in {k \in AllKeys(t) : \E r \in DOMAIN t.rows : k \notin DOMAIN t.rows[r]}}
